@@ -349,6 +349,13 @@ func (r *Runner) execMacro(a Action) {
 				in.Crash()
 			}
 		}
+		if len(a.Set) > 0 && a.Set[0] > 0 {
+			// VerifyLeader while the lagging follower is being sent the snapshot:
+			// armed here, issued a.Set[0]-1 ms after the InstallSnapshot goes out
+			w.Mu.Lock()
+			r.verifyOnIS = a.Set[0]
+			w.Mu.Unlock()
+		}
 		r.exec(Action{Op: "heal"})
 	case "inheritedtail":
 		// commands reach the followers but their acknowledgements are lost, so
@@ -738,7 +745,7 @@ func (r *Runner) finalProfile() {
 		}
 	}
 	// C13/R2: a fault-free cluster keeps one leader and one term
-	if r.P.Profile == "leaselong" {
+	if r.P.Profile == "leaselong" || r.P.Profile == "leasejoin" {
 		ls := w.O.Leaders()
 		if len(ls) > 1 {
 			w.ViolateLocked("C13", "R2", "C13/R2/leader-change-in-a-fault-free-run", "fault-free run of %d ms saw %d leaderships: %v", w.Now(), len(ls), w.O.LeaderSeq)
